@@ -8,6 +8,18 @@ HERE = os.path.dirname(os.path.dirname(os.path.abspath(__file__)))
 ALL = ["C%02d" % i for i in range(1, 21)]
 
 CHECKS = {
+ "C08": dict(
+  category="exploration",
+  text="Runs the real lr1.Grammar(...).parser() on thousands of random small CFGs (textbook LR(1)/non-LALR/ambiguous seeds, "
+       "perturbations, LL(1)-by-construction, reduced and unreduced) and judges every string up to a length bound (trie walk) plus "
+       "deeper derived sentences and token mutants against an independent Earley recogniser: accept/reject, returned tree is a "
+       "derivation with the input as leaves, error index = longest viable prefix (reduced grammars), and a bounded two-derivation "
+       "ambiguity finder vs conflicts == {}. The Emboss grammar itself is exercised with generated sentences and token mutants on a "
+       "freshly generated parser.",
+  note="Trusts vlib/earley.py; ambiguity search bounded to length 6; error-position clause only judged for reduced grammars; "
+       "spurious conflicts on LR(1) grammars are counted, not judged (the property allows 'reports conflicts').",
+  technique="runtime differential monitoring against an Earley reference model, exhaustive strings per small grammar",
+  design_ref="5/C08"),
  "C10": dict(
   category="exploration",
   text="Post-condition monitor on the real tokenizer.tokenize over >=120k generated texts per quick run "
